@@ -6,10 +6,11 @@ Property theorems only; helper lemmas in Lemmas/KanataV2Rest.lean.
 
 (a) `idle_implies_chv2_at_rest`   what `can_block_update_idle_waiting` establishes about the chords-v2
     machine: exactly the three facts the code checks (input queue empty, no active chord, cool-down
-    over). It does NOT establish that the "skip the scan" countdown is at rest:
-    `chv2_stale_countdown_counterexample` (a reachable blocking state whose countdown is still
-    running; a `tap` input arriving then waits for the stale countdown, while after one more tick it
-    would not - reproduced on the real code, see the replay in the report).
+    over). Before fix PENDING-kanv2 that was weaker than "at rest": `chv2_stale_countdown_counterexample`
+    (over the pinned cool-down branch: a reachable blocking state whose scan countdown is still running;
+    a `tap` input arriving then waits for it, while after one more tick it would not - reproduced on
+    the real code, corpus/C07.txt). Since the repair: `cooldown_leaves_no_stale_countdown`,
+    `chv2_no_stale_countdown_invariant`, `idle_implies_chv2_at_rest_full`, `chv2_stale_countdown_repaired`.
 (b) `block_silent_v2`             C07's `block_silent` for the composed model: from a state in which
     kanata may block, a whole `tick_states` emits nothing and changes only ageing counters - of the
     layout (C07) and of the chords-v2 machine (`restTick`: the three fields of the scan-skipping
@@ -174,23 +175,169 @@ def obsK : Except K.Crash KV2 → Option (List Os × Nat × Nat × Bool)
 /-- a alone is pressed and released 3 ms later (a failed chord attempt), then 5 ms pass -/
 def failedAttempt : List KIn := [.inp (.press 30), .t 3, .inp (.release 30), .t 5]
 
-/-- **chv2_stale_countdown_counterexample** (the code's blocking clause is weaker than "at rest").
-After a failed chord attempt the cool-down ends with `ticks_until_next_state_change = 46` and
-`prev_queue_len = 2` left over from the last scan; neither `is_idle_chv2` nor `accepts_chords_chv2`
-looks at them, so kanata may block in that state (first line).  `block_silent_v2` shows that ticking
-on emits nothing - but it does reset the leftover (one tick later both are 0, second line), so the
-two loops are in DIFFERENT states when the next input arrives, and an input that puts two events into
-the queue at once (`KeyValue::Tap`: press and release in one `handle_input_event`) tells them apart:
-from the blocking state the queue length equals the remembered 2 and the scan is skipped while the
-stale countdown runs - three ticks later nothing has reached the OS (third line); had the loop ticked
-once more before the same input, the tap is out after three ticks (fourth line).  Reproduced on the
-real code (blocking loop: the tapped key appears 195 ms later than under the always-ticking loop). -/
+/-- the same history at the layout level (`stepsV2` of Props/C09V2.lean takes the tick function) -/
+def failedAttemptL : List In := [.p 30, .t 3, .r 30, .t 5]
+
+/-- held keys, layout queue length, and of the chords-v2 machine: queue length, active chords, cool-down,
+scan countdown, remembered queue length -/
+def obsS : Except L.Crash LayoutV2 → Option (List Nat × List Nat)
+  | .error _ => none
+  | .ok s => match s.chv2 with
+    | none => none
+    | some c => some (s.lay.keycodes, [s.lay.queue.length, c.queue.length, c.active.length, c.ticksToIgnore,
+                                       c.ticksUntilChange, c.prevQueueLen])
+
+/-- **chv2_stale_countdown_counterexample** (the code BEFORE fix PENDING-kanv2, `PinnedStale.tickV2` of
+Model/ChordsV2Pinned.lean: the cool-down branch of `drain_inputs` returned without touching
+`ticks_until_next_state_change`).  After a failed chord attempt the cool-down ends with the countdown
+of the last scan (46) and its queue length (2) left over, while everything `is_idle_chv2` and
+`accepts_chords_chv2` look at is at rest: queue empty, no active chord, cool-down 0 - kanata blocks in
+that state (first line).  One more tick resets the leftover (second line), so the blocking loop and the
+always-ticking loop are in DIFFERENT states when the next input arrives, and an input that puts two
+events into the queue at once (`KeyValue::Tap`, a virtual-key tap: press and release with no tick
+between) tells them apart: from the blocking state the queue length equals the remembered 2 and the
+scan is skipped while the stale countdown runs - two ticks later both events are still in the
+chords-v2 queue and nothing is held (third line); had the loop ticked once more before the same input,
+the key is down after two ticks (fourth line).  Reproduced on the real code (corpus/C07.txt, `kanv2
+stale countdown`: the tapped key appears 195 ms later under the blocking loop).  On the repaired code
+the leftover countdown is gone and both orders give the same (fifth, sixth line). -/
 theorem chv2_stale_countdown_counterexample :
-    obsK (runKV2 failedAttempt kanStart) = some ([.down 30, .up 30], 46, 2, true) ∧
-    obsK (runKV2 (failedAttempt ++ [.t 1]) kanStart) = some ([.down 30, .up 30], 0, 0, true) ∧
-    obsK (runKV2 (failedAttempt ++ [.inp (.tap 30), .t 3]) kanStart) = some ([.down 30, .up 30], 43, 2, false) ∧
+    obsS (stepsV2 PinnedStale.tickV2 failedAttemptL v2Start) = some ([], [0, 0, 0, 0, 46, 2]) ∧
+    obsS (stepsV2 PinnedStale.tickV2 (failedAttemptL ++ [.t 1]) v2Start) = some ([], [0, 0, 0, 0, 0, 0]) ∧
+    obsS (stepsV2 PinnedStale.tickV2 (failedAttemptL ++ [.p 30, .r 30, .t 2]) v2Start) = some ([], [0, 2, 0, 0, 44, 2]) ∧
+    obsS (stepsV2 PinnedStale.tickV2 (failedAttemptL ++ [.t 1, .p 30, .r 30, .t 2]) v2Start) = some ([30], [1, 0, 0, 3, 49, 2]) ∧
+    obsS (stepsV2 LayoutV2.tick (failedAttemptL ++ [.p 30, .r 30, .t 2]) v2Start) = some ([30], [1, 0, 0, 3, 0, 2]) ∧
+    obsS (stepsV2 LayoutV2.tick (failedAttemptL ++ [.t 1, .p 30, .r 30, .t 2]) v2Start) = some ([30], [1, 0, 0, 3, 0, 2]) := by
+  refine ⟨?_, ?_, ?_, ?_, ?_, ?_⟩ <;> decide +kernel
+
+/-! ### What the repair PENDING-kanv2 makes true -/
+
+/-- the scan branch of `drain_inputs` (its third branch) -/
+def scanNow (s : ChV2) (dq : List Queued) (layer : Nat) : Except L.Crash (ChV2 × List Queued) :=
+  let s := { s with ticksUntilChange := 0, prevActiveLayer := layer }
+  match drainVirtualKeys s.queue dq with
+  | .error c => .error c
+  | .ok (q, dq) =>
+    match drainReleases q 0 s.active dq with
+    | .error c => .error c
+    | .ok (q, achs, dq) =>
+      match processPresses { s with queue := q, active := achs } layer with
+      | .error c => .error c
+      | .ok s => .ok ({ s with prevQueueLen := s.queue.length % 256 }, dq)
+
+/-- **cooldown_leaves_no_stale_countdown** (full, any state).  A tick that finds the cool-down running
+empties the queue and leaves `ticks_until_next_state_change = 0`; and with the countdown at 0 (and no
+cool-down) `drain_inputs` never takes the skipping branch: whatever the remembered layer and queue
+length, the queue is scanned in that very tick.  So an input that arrives after a cool-down - of any
+queue length - is scanned at once. -/
+theorem cooldown_leaves_no_stale_countdown (s : ChV2) (dq : List Queued) (layer : Nat) :
+    (s.ticksToIgnore > 0 → ∃ s' dq', drainInputs s dq layer = .ok (s', dq') ∧ s'.ticksUntilChange = 0 ∧ s'.queue = []) ∧
+    (s.ticksToIgnore = 0 → s.ticksUntilChange = 0 → drainInputs s dq layer = scanNow s dq layer) := by
+  constructor
+  · intro h
+    unfold drainInputs
+    simp only [h, if_true]
+    exact ⟨_, _, rfl, rfl, rfl⟩
+  · intro h1 h2
+    unfold drainInputs scanNow
+    simp only [h1, h2, Nat.lt_irrefl, gt_iff_lt, if_false, decide_false, Bool.false_and, Bool.false_eq_true]
+    rfl
+
+/-- the countdown is only ever non-zero while presses are waiting in the queue -/
+def NoStale (s : ChV2) : Prop := s.queue = [] → s.ticksUntilChange = 0
+
+theorem processPresses_noStale (s s' : ChV2) (layer : Nat) (h0 : s.ticksUntilChange = 0)
+    (h : processPresses s layer = .ok s') : NoStale s' := by
+  intro hq
+  unfold processPresses at h
+  split at h
+  · cases h
+  · rename_i presses relFound hcp
+    split at h
+    · injection h with h; rw [← h]; exact h0
+    · rename_i starting hhead
+      split at h
+      · injection h with h; rw [← h]; exact h0
+      · simp only [] at h
+        split at h
+        · cases h
+        · injection h with h
+          rw [← h] at hq ⊢
+          simp only at hq ⊢
+          split
+          · rfl
+          · rename_i hna
+            simp only [hna, if_false] at hq
+            rw [hq] at hcp
+            simp only [collectPresses] at hcp
+            injection hcp with hcp
+            injection hcp with hp _
+            rw [← hp] at hhead
+            cases hhead
+
+/-- **chv2_no_stale_countdown_invariant** (full; what the repair adds to `idle_implies_chv2_at_rest`).
+`NoStale` - an empty queue has no countdown - holds in the fresh state, is preserved by every event
+(the queue is not empty afterwards) and by every tick of the chords-v2 machine from ANY state that has
+it.  With it, a blocking state (`idle_implies_chv2_at_rest`: queue empty) has `ticksUntilChange = 0`:
+at rest in the full sense - the next input, of whatever queue length, is scanned in the first tick
+after it (`cooldown_leaves_no_stale_countdown`), as under the loop that never blocks. -/
+theorem chv2_no_stale_countdown_invariant :
+    (∀ cfg : ChV2Cfg, NoStale { cfg }) ∧
+    (∀ (s s' : ChV2) (layer : Nat) (dq : List Queued), NoStale s → tickChv2 s layer = .ok (s', dq) → NoStale s') := by
+  refine ⟨fun _ _ => rfl, ?_⟩
+  intro s s' layer dq hn h
+  unfold tickChv2 at h
+  simp only [] at h
+  split at h
+  · cases h
+  · rename_i s1 dq1 hd
+    split at h
+    · cases h
+    · rename_i achs dq2 _
+      injection h with h; injection h with h _
+      rw [← h]
+      show s1.queue = [] → s1.ticksUntilChange = 0
+      unfold drainInputs at hd
+      simp only [] at hd
+      split at hd
+      · injection hd with hd; injection hd with hd _
+        rw [← hd]; intro _; rfl
+      · split at hd
+        · rename_i hskip
+          injection hd with hd; injection hd with hd _
+          rw [← hd]
+          intro hq
+          simp only [List.map_eq_nil_iff] at hq
+          have := hn hq
+          simp only [Bool.and_eq_true, decide_eq_true_eq] at hskip
+          omega
+        · split at hd
+          · cases hd
+          · split at hd
+            · cases hd
+            · split at hd
+              · cases hd
+              · rename_i s2 hpp
+                injection hd with hd; injection hd with hd _
+                rw [← hd]
+                exact processPresses_noStale _ s2 layer rfl hpp
+
+/-- a blocking state that has the invariant is at rest in the full sense -/
+theorem idle_implies_chv2_at_rest_full (s : KV2) (ms : Nat) (h : (canBlockV2 s ms).2 = true)
+    (ch : ChV2) (hch : s.chv2 = some ch) (hn : NoStale ch) :
+    ch.queue = [] ∧ ch.active = [] ∧ ch.ticksToIgnore = 0 ∧ ch.ticksUntilChange = 0 := by
+  obtain ⟨_, _, hr⟩ := idle_implies_chv2_at_rest s ms h
+  have := hr ch hch
+  exact ⟨this.queue, this.active, this.cool, hn this.queue⟩
+
+/-- the failed attempt on the repaired model: kanata may block with no countdown left, and the tap that
+follows is out after three ticks whether or not the loop ticked in between -/
+theorem chv2_stale_countdown_repaired :
+    obsK (runKV2 failedAttempt kanStart) = some ([.down 30, .up 30], 0, 2, true) ∧
+    obsK (runKV2 (failedAttempt ++ [.inp (.tap 30), .t 3]) kanStart)
+      = some ([.down 30, .up 30, .down 30, .up 30], 0, 2, false) ∧
     obsK (runKV2 (failedAttempt ++ [.t 1, .inp (.tap 30), .t 3]) kanStart)
-      = some ([.down 30, .up 30, .down 30, .up 30], 49, 2, false) := by
+      = some ([.down 30, .up 30, .down 30, .up 30], 0, 2, false) := by
   decide +kernel
 
 /-! ## (c) the chord's action reaches the OS once -/
